@@ -54,12 +54,13 @@ func main() {
 			g.Gen(r.Fork(), *n, func(in lib.M) { cs.Put(lib.Case{In: in, Out: purefn.Eval(in)}) })
 		}
 		if g.Monitor != nil {
-			cnt := 0
+			cnt := map[string]int{}
 			g.Monitor(r.Fork(), *mon, func(v lib.Violation) {
-				if cnt < 20 {
+				k := v.Property + "/" + v.Key + "/" + v.What
+				if cnt[k] < 5 {
 					vs.Put(v)
 				}
-				cnt++
+				cnt[k]++
 			})
 		}
 	}
